@@ -444,6 +444,17 @@ class NutsRun:
                     o.active = False
                 if k == "warmup":
                     o.history = "after_warmup"
+            elif k == "retarget":
+                # the public target setter on an initialised sampler (what a Gibbs orchestrator does): the cached
+                # log-density and gradient must still belong to the current point
+                s.target = s.target
+                o.history = "after_retarget"
+                ctx.fault("retarget")
+                x = as_vec(s.current_point)
+                for name, val, rf in (("current_target_logd", s.current_target_logd, refs["ref_logd"](x)),
+                                      ("current_target_grad", s.current_target_grad, refs["ref_grad"](x))):
+                    if not close(np.asarray(val, float), np.asarray(rf, float), 1e-8):
+                        ctx.violate(PROP, "cache_coherence", o.sig(cache=name, history=o.history), cached=val, reference=rf)
             elif k == "reload":
                 s.save_checkpoint("ck")
                 with core.setup_stream(self.setup_seed + 1):
@@ -560,11 +571,13 @@ def gen_case(r, tier):
             x = r.random()
             if x < 0.5:
                 ops.append({"op": "sample", "n": r.randint(1, 12)})
-            elif x < 0.85:
+            elif x < 0.82:
                 ops.append({"op": "warmup", "n": r.randint(1, 25)})
-            else:
+            elif x < 0.92:
                 ops.append({"op": "reload"})
-        if not any(o["op"] != "reload" for o in ops) or ops[-1]["op"] == "reload":
+            else:
+                ops.append({"op": "retarget"})
+        if not any(o["op"] in ("sample", "warmup") for o in ops) or ops[-1]["op"] in ("reload", "retarget"):
             ops.append({"op": "sample", "n": r.randint(1, 8)})
     else:
         adapt = r.choice([True, False, 0.05, 0.3, 0.9, 2.5])
